@@ -130,6 +130,27 @@ CLAIMED.update({
               "5/C29", _TB, "instrumented sources and functions (Coq meta model in progress)"),
 })
 
+CLAIMED.update({
+    "C18": _c("Coq theorems (coq/Properties/C18.v): partition_all groups are a valid ordered partition; the tree depth reaches a single "
+              "block for every admissible log oracle; level-by-level tree evaluation with any fan-in equals the flat fold (1-D: any monoid, "
+              "associativity only; N-d grids: commutative monoids / the actual combine-aggregate of sum, prod, mean); per-reduction "
+              "homomorphism theorems (sum, prod, min, max, any, all, count_nonzero, mean, NaN variants); single-axis argmin/argmax are "
+              "chunking independent; slice-through-reduction index mapping; refuted clauses = known findings; " + _TIE + ".",
+              "5/C18", _TB + "exact carriers (Z / Q / option for NaN): IEEE rounding inside a block is outside the model; var/moment positive "
+              "theorem not proved (validated by correspondence within 1e-9).", "Coq proof over Gallina model + differential correspondence"),
+    "C24": _c("Coq theorems (coq/Properties/C24.v): region chains select exactly NumPy's composed indexing, per-block read requests are "
+              "contiguous, disjoint, in bounds and tile the region (N-d cover/uniqueness), storage-aligned read layouts are valid and their "
+              "interior boundaries lie on the storage grid; " + _TIE + " through a recording non-NumPy source (every logged request).",
+              "5/C24", _TB + "harness/recsrc.py recorder; NaN targets / non-integer storage grids outside the model.",
+              "Coq proof over Gallina model + differential correspondence via recording source"),
+    "C27": _c("Coq theorems (coq/Properties/C27.v): moved_fraction in [0,1], zero for identical layouts and pure splits; per-axis stage "
+              "quantities and the N-d combination give 0 <= min <= max; same-layout rechunk moves nothing; slice / partial-reduce / "
+              "blockwise / default / alias estimates well-formed; " + _TIE + "; every node of raw / optimized / lowered / materialized "
+              "forms of generated programs is checked against the property.", "5/C27",
+              _TB + "classes without a Gallina model (Shuffle, overlap, sliding-window, cumulative, Stack) get property-level checks only.",
+              "Coq proof over Gallina model + differential correspondence + node walk"),
+})
+
 NOT_APPLICABLE = {
     "C22": "native Rust layers cannot be built or run here (pyo3 0.29 and build crates absent from the offline cargo cache, no prebuilt _rust*.so), so no model of them can be tied to the code",
 }
